@@ -203,6 +203,16 @@ def run(ctx):
     n = ctx.budget(420, 6000)
     cases = [gen_case(rng, OPS[i % len(OPS)]) for i in range(n)]
     cases += [gen_exact_case(rng, ["linear_rectangular", "linear_triangular"][i % 2]) for i in range(ctx.budget(30, 300))]
+    # twins: the SAME operator, grid, bandwidth and spectra called again right afterwards with other centre frequencies that agree with the first call's in
+    # number, first and last value only (a result may depend on this call's arguments alone -- nothing may be remembered from the call before)
+    with_twins = []
+    for i, c in enumerate(cases):
+        with_twins.append(c)
+        if i % 5 == 0 and c["kind"] != "exact" and len(c["fcs"]) >= 3 and "fcs_dtype" not in c:
+            lo, hi = min(c["fcs"][0], c["fcs"][-1]), max(c["fcs"][0], c["fcs"][-1])
+            inner = [float(x) for x in rng.uniform(lo, hi, len(c["fcs"]) - 2)] if hi > lo else c["fcs"][1:-1][::-1]
+            with_twins.append(dict(c, fcs=[c["fcs"][0]] + inner + [c["fcs"][-1]], twin=True))
+    cases = with_twins
     outs = run_driver([model_line(c) for c in cases])
     for i, (c, o) in enumerate(zip(cases, outs)):
         mo = parse(o)
@@ -215,6 +225,8 @@ def run(ctx):
                  sample=dict(op=c["op"], bw=c["bw"], nfreq=len(c["freq"]), nrows=len(c["rows"]), fcs=c["fcs"][:4], kind=c["kind"],
                              impl_first_row=(comp[0][:4].tolist() if not isinstance(comp, str) else comp)))
         ctx.count("op:" + c["op"])
+        if c.get("twin"):
+            ctx.count("second-call-twin")
         ctx.count("kind:" + c["kind"])
         ctx.count("fcs_dtype:" + c.get("fcs_dtype", "float64"))
         ctx.count("sample_order:" + c.get("sample_order", "as-generated"))
